@@ -3,7 +3,7 @@
    coq/Ext/*Proofs.v and followed by Print Assumptions. *)
 From Coq Require Import List Ascii String NArith Bool.
 From ZenoV Require Import Ext.FileExt Ext.FileExtProofs Ext.Json Ext.JsonProofs Ext.Xml Ext.XmlProofs
-  Ext.M3u8 Ext.M3u8Proofs Ext.S3 Ext.S3Proofs Ext.Post Ext.PostProofs.
+  Ext.M3u8 Ext.M3u8Proofs Ext.S3 Ext.S3Proofs Ext.Post Ext.PostProofs Ext.PostPos Ext.PostPosProofs.
 Import ListNotations.
 
 (* ---- assets versus outlinks: hasFileExtension ---------------------------------------------- *)
@@ -161,6 +161,42 @@ Theorem C19_post_hops : forall i u h,
   (In (u, h) (post_children i) -> h = p_hops i) /\ (In (u, h) (post_outlinks i) -> h = (p_hops i + 1)%N).
 Proof. exact post_hops_lemma. Qed.
 Print Assumptions C19_post_hops.
+
+(* ---- the document's position in its seed's item tree ------------------------------------------ *)
+
+(* The depth that decides postprocessItem's "too deep" cut-off - GetDepthWithoutRedirections of the document,
+   read off the shared tree model Tree/Item.v (dwr_all, encoded + 1) on the tree that has exactly the path
+   [p] from the seed to the document - is the number of ASSET edges of the path, for every path. *)
+Theorem C19_post_depth_counts_assets : forall p, doc_dwr p = Some (S (nchild p)).
+Proof. exact doc_dwr_counts_children_lemma. Qed.
+Print Assumptions C19_post_depth_counts_assets.
+
+(* A redirection edge anywhere on the way (before the page, between page and asset, in front of the
+   document) does not change that depth, while it adds one to the plain depth (GetDepth). *)
+Theorem C19_post_depth_ignores_redirections : forall p q,
+  doc_dwr (p ++ ERedir :: q) = doc_dwr (p ++ q) /\ doc_depth (p ++ ERedir :: q) = S (doc_depth (p ++ q)).
+Proof. exact doc_dwr_ignores_redirections_lemma. Qed.
+Print Assumptions C19_post_depth_ignores_redirections.
+
+(* The cut-off for every tree shape: at asset depth <= 2 (an asset sniffed as HTML excepted) the document is
+   post-processed exactly as a freshly archived seed, one asset level deeper nothing is extracted. *)
+Theorem C19_post_at : forall p html i,
+  (nchild p <= 2 -> (nchild p = 1 -> html = false) ->
+     post_children_at p html i = post_children i /\ post_outlinks_at p html i = post_outlinks i)
+  /\ (2 < nchild p -> post_children_at p html i = [] /\ post_outlinks_at p html i = []).
+Proof. exact post_at_lemma. Qed.
+Print Assumptions C19_post_at.
+
+(* Every link of a structured document at asset depth <= 2, counted WITHOUT redirections, is extracted -
+   for every position (any number of redirection edges anywhere), every document kind, every hop count:
+   assets become children at the item's hop count, the others outlinks one hop further while the hop limit
+   allows. *)
+Theorem C19_post_at_all_found : forall p html i u,
+  nchild p <= 2 -> (nchild p = 1 -> html = false) -> p_body i = true -> u <> p_self i ->
+  (In u (doc_assets i) -> In (u, p_hops i) (post_children_at p html i))
+  /\ ((p_hops i < p_maxhops i)%N -> In u (doc_outlinks i) -> In (u, p_hops i + 1)%N (post_outlinks_at p html i)).
+Proof. exact post_at_all_found_lemma. Qed.
+Print Assumptions C19_post_at_all_found.
 
 (* ---- bucket listings ----------------------------------------------------------------------- *)
 
